@@ -25,7 +25,7 @@ def cases(ctx):
     for i in range(ctx.pick(500, 100000)):
         yield "batch", {"seed": ctx.subseed("b", i)}
     for i in range(ctx.pick(120, 20000)):
-        yield "sweep", {"seed": ctx.subseed("s", i), "gen": ["custom", "random", "lhs", "halton", "uniform"][i % 5]}
+        yield "sweep", {"seed": ctx.subseed("s", i), "gen": ["custom", "random", "lhs", "halton", "uniform", "fullfact", "pb", "bb"][i % 8]}
     for i in range(ctx.pick(48, 6400)):
         yield "scipy", {"seed": ctx.subseed("sp", i), "method": SCIPY[i % len(SCIPY)]}
     for i in range(ctx.pick(48, 6400)):
@@ -227,6 +227,13 @@ def run_case(ctx, name, params):
         elif g == "halton":
             gobj = operators.HaltonGenerator(p.parameters)
             gobj.init(N)
+        elif g == "fullfact":
+            gobj = operators.FullFactorGenerator(p.parameters)
+            gobj.init(r.random() < 0.5)
+        elif g == "pb":
+            gobj = operators.PlackettBurmanGenerator(p.parameters)
+        elif g == "bb" and n >= 3:
+            gobj = operators.BoxBehnkenGenerator(p.parameters)
         else:
             gobj = operators.UniformGenerator(p.parameters)
             gobj.init(r.randint(2, 4))
